@@ -105,9 +105,7 @@ func runIncT[T num](r *runner, c *pcase, binds []incBind[T], e, p, tiny int) {
 					bad = fmt.Sprintf("got %v want(spec) %d", s, c.S)
 				}
 			case "Nrm2Inc":
-				if !withinBound(s, c.S, e, c.Tol, p, tiny) {
-					bad = fmt.Sprintf("got %v, exact norm is %d*2^%d, outside %d*2^-%d relative bound", s, c.S, e, c.Tol, p)
-				}
+				bad = normBad(c, s, e, p, tiny)
 			}
 			if bad == "" {
 				if i, ok := sameVecGuard(bx.view, wx, e); !ok {
